@@ -215,7 +215,7 @@ def names_for(ck):
     for c in PUNCT:
         names += ['xx%sy' % c, '%sx' % c, 'x%s' % c]
     two = [a + b for a in PUNCT for b in PUNCT]
-    names += ['x(y)z', 'x()', '(x)']
+    names += ['x(y)z', 'x()', '(x)', 'xx  y', 'x   y']
     names += ['x%sy' % t for t in rnd.sample(two, 40 if ck.quick else 500)]
     names += [''.join(rnd.choice(PUNCT + ['a', '1']) for _ in range(
         rnd.randint(3, 6))) for _ in range(20 if ck.quick else 400)]
@@ -292,6 +292,8 @@ def main(argv):
             bad.append('leadblank')
         if n.startswith('-'):
             bad.append('leaddash')
+        if '  ' in n:
+            bad.append('multiblank')
         if '%' in n:
             bad.append('percent')
         if ':' in n:
